@@ -14,7 +14,7 @@ import common as C
 import setuplane as L
 
 #          MC cfg                       spellings  apis    random URLs  TLC timeout
-CFG = {"quick": ("MCSetupRows_quick.cfg", "1", "alt", 600, 300),
+CFG = {"quick": ("MCSetupRows_quick.cfg", "1", "alt", 1500, 300),
        "thorough": ("MCSetupRows_thorough.cfg", "all", "both", 5000, 900)}
 
 # what the replay must have seen at least once (vacuity)
